@@ -1,5 +1,5 @@
 """C12 -- splitting a problem partitions its search space (structural clauses)."""
-from ..rules import model
+from ..rules import model, optimize
 
 EXPLANATION = (
     "Static analysis of Problem.split: the number of parts is provably bounded by the domain size before the loop (clamp), each part is a deep copy and the only store goes through the copy to shr_domains_lst[var_idx], consecutive parts are adjacent (next min = this max + 1, on every path of the size/remainder branch), the first part starts at the domain minimum. The identity 'last part ends at the maximum' is arithmetic, declared undecided. Now also decided: every return path returns a fresh list holding only deep copies made by the loop; the part sizes are s//k + [i < s%k] (threshold exact, off-by-constant is a violation), which by the lemma sum_{i<k}(q + [i<r]) = kq + r (lemmas/SplitSizes.lean) makes the last part end at the domain maximum."
@@ -8,3 +8,4 @@ EXPLANATION = (
 
 def check(ctx, prog):
     model.rule_split(ctx, prog)
+    optimize.rule_domain_source(ctx, prog)  # what split writes is what a solver reads
